@@ -1300,6 +1300,69 @@ fn main() {
         dup.push(&t, &format!("{} threads call commit() on one workspace {:?}: results={:?} blocks={:?}", ncall, ops, res, chain_txs), true);
     }
 
+    // ---- commitroot: one commit of a workspace mixing every transaction kind (several table operations on one
+    // table, repeated keys, compare-and-swap): the store must reflect ALL the block's operations in order, i.e. the
+    // header's state root equals the root of a replica that restores the pre-commit image and replays the block
+    let mut croot = CaseWriter::new(&args.out, "commitroot");
+    let ncr = args.budget(40, 1500);
+    for ci in 0..ncr {
+        let kk = 4u64;
+        let c = mk(next_seed(), 12, 0, false);
+        let mut uniq = 0u8;
+        let ncommits = rng.range(1, 3);
+        for cj in 0..ncommits {
+            let mut l: Vec<Tx> = vec![];
+            if ci == 0 && cj == 0 {
+                // corpus (seeded C16-r4-2 shape): insert, update, insert, delete on ONE table, puts in between
+                l = vec![Tx::Other(4, 1, 0), Tx::Put(0, vec![1]), Tx::Other(5, 1, 1), Tx::Other(4, 1, 2), Tx::Put(0, vec![2]), Tx::Other(6, 1, 7), Tx::Other(4, 2, 0)];
+            } else {
+                let n = rng.range(2, 7) as usize;
+                let table = rng.below(2);
+                for _ in 0..n {
+                    l.push(match rng.below(6) {
+                        0 | 1 => Tx::Other(rng.range(4, 6), table, rng.below(4)),
+                        2 => Tx::Other(rng.below(8), rng.below(2), rng.below(3)),
+                        3 => Tx::Del(rng.below(kk)),
+                        _ => Tx::Put(rng.below(kk), gen_val(&mut rng, &mut uniq)),
+                    });
+                }
+            }
+            let pre_image = c.chain.store().snapshot_bytes().unwrap();
+            let pre = c.dump(kk);
+            let w = c.chain.begin().unwrap();
+            for t in &l {
+                w.add_operation(t.real()).unwrap();
+            }
+            let r = c.chain.commit(&w);
+            let post = c.dump(kk);
+            let (lroot, rroot) = match c.block(c.chain.height()) {
+                Some(b) if r.is_ok() => {
+                    let replica = TensorStore::new();
+                    replica.restore_from_bytes(&pre_image).unwrap();
+                    for t in &b.transactions {
+                        let _ = tensor_chain::transaction::apply_transaction_to_store(&replica, t);
+                    }
+                    (b.header.state_root, tensor_chain::compute_state_root(&replica).unwrap())
+                }
+                _ => ([0u8; 32], [1u8; 32]),
+            };
+            let tables = l.iter().filter(|t| matches!(t, Tx::Other(4..=6, _, _))).count();
+            dist.hit(&format!("commitroot.table_ops.{}", tables.min(4)));
+            let t = format!(
+                "({}, ({}, {}, {}, {}, {}, {}, {}))",
+                c.extra,
+                kk,
+                code(&r),
+                dump_coq(&pre),
+                txs_coq(&l),
+                dump_coq(&post),
+                if lroot == rroot { 0 } else { 1 },
+                c.ver()
+            );
+            croot.push(&t, &format!("commit #{cj} of {:?}: result={} header root == replayed root: {}", l, code(&r), lroot == rroot), tables >= 2);
+        }
+    }
+
     // ---- replay: the same blocks on two replicas
     // mode "shared" = production wiring (cluster.rs, every test of the crate): chain records and state in ONE
     // store, blocks produced by a leader TensorChain; mode "separate" = state in its own store, blocks built by the
@@ -1394,7 +1457,22 @@ fn main() {
                 let mut root = tensor_chain::compute_state_root(&scratch).unwrap();
                 let mut d = Raw::good(0, vec![]);
                 let mut good = true;
-                match rng.below(8) {
+                // block embedding: None, or a direction (similar embeddings let a replica take its fast path)
+                let mut emb: Option<Vec<f32>> = match rng.below(4) {
+                    0 => None,
+                    k => Some(match k {
+                        1 => vec![1.0, 0.0, 0.0, 0.0],
+                        2 => vec![0.99, 0.02, 0.0, 0.0],
+                        _ => vec![0.0, 1.0, 0.0, 0.0],
+                    }),
+                };
+                let corpus_fast = ri == 3 && bi < 4;
+                if corpus_fast {
+                    // corpus (seeded C16-r4-3 shape): good block with embedding e; then a FALSE root with a similar
+                    // embedding; then a good one; then another false root
+                    emb = Some(vec![1.0, if bi % 2 == 1 { 0.01 } else { 0.0 }, 0.0, 0.0]);
+                }
+                match if corpus_fast { if bi % 2 == 1 { 0 } else { 7 } } else { rng.below(8) } {
                     0 => {
                         root[5] ^= 1;
                         good = false;
@@ -1421,8 +1499,12 @@ fn main() {
                 };
                 let who = if d.sig == 3 { &c.unk } else { &c.me };
                 let mut hdr = BlockHeader::new(hgt, prev, [0u8; 32], root, who.node_id());
-                hdr.delta_embedding = SparseVector::new(128);
+                hdr.delta_embedding = match &emb {
+                    Some(e) => SparseVector::from_dense(e),
+                    None => SparseVector::new(128),
+                };
                 hdr.timestamp = d.ts;
+                dist.hit(if emb.is_some() { "replay.separate.block_with_embedding" } else { "replay.separate.block_without_embedding" });
                 let mut blk = Block::new(hdr, l.iter().map(|t| t.real()).collect());
                 blk.header.tx_root = blk.compute_tx_root();
                 blk.header.signature = match d.sig {
@@ -1433,6 +1515,10 @@ fn main() {
                 dist.hit(&format!("replay.separate.h{}p{}s{}{}", d.height, d.prev, d.sig, if good { "" } else { ".badroot" }));
                 let mut acc = false;
                 for (ri2, rep) in reps.iter().enumerate() {
+                    if ri2 == 1 {
+                        // replica 1 behaves like a freshly restarted node: no memory of recent block embeddings
+                        rep.sm.clear_recent();
+                    }
                     let r = rep.sm.apply_block(&blk);
                     acc = r.is_ok();
                     let rt = tensor_chain::compute_state_root(&rep.store).unwrap();
@@ -1504,10 +1590,10 @@ fn main() {
         &args.out,
         json!({
             "property": "C16", "seed": args.seed, "tier": args.tier,
-            "kinds": [seq.summary(), layout.summary(), tamper.summary(), conc.summary(), merge.summary(), dup.summary(), replay.summary()],
+            "kinds": [seq.summary(), layout.summary(), tamper.summary(), conc.summary(), merge.summary(), dup.summary(), croot.summary(), replay.summary()],
             "distribution": dist.json(),
             "hits": hits.0,
-            "nontrivial_rule": "seq: >= 3 calls with at least one successful commit; tamper: every case (a mutated stored block); conc: every case (>= 2 concurrent commits); merge: at least two workspaces end Committed; dup: every case (>= 2 commit() calls on one workspace); replay: at least one block accepted; layout: a non-genesis committed header or a crafted one with codes/embedding",
+            "nontrivial_rule": "seq: >= 3 calls with at least one successful commit; tamper: every case (a mutated stored block); conc: every case (>= 2 concurrent commits); merge: at least two workspaces end Committed; dup: every case (>= 2 commit() calls on one workspace); commitroot: the block holds >= 2 table operations; replay: at least one block accepted; layout: a non-genesis committed header or a crafted one with codes/embedding",
         }),
     );
 }
